@@ -144,7 +144,9 @@ func checkSPDX3Output(doc *sbom.Document, out []byte) error {
 		return b.String()
 	}
 	emitted := map[string]int{}
-	rels := map[string]int{}
+	artifact := map[string]bool{} // elements that describe software artifacts (packages, files) or carry no type at all
+	type rel struct{ from, typ, to string }
+	var rels []rel
 	var elements []any
 	for k, v := range j {
 		if strings.EqualFold(k, "element") || strings.EqualFold(k, "elements") || k == "@graph" {
@@ -155,33 +157,90 @@ func checkSPDX3Output(doc *sbom.Document, out []byte) error {
 		eo := jsonObj(e)
 		if from := member(eo, "from"); from != nil {
 			for _, to := range jsonArr(member(eo, "to")) {
-				rels[jsonStr(from)+" "+norm(jsonStr(member(eo, "relationshipType")))+" "+jsonStr(to)]++
+				rels = append(rels, rel{jsonStr(from), norm(jsonStr(member(eo, "relationshipType"))), jsonStr(to)})
 			}
 			continue
 		}
 		if id := jsonStr(member(eo, "spdxId")); id != "" {
 			emitted[id]++
-		}
-	}
-	for _, n := range doc.NodeList.Nodes {
-		if c := emitted[n.Id]; c != 1 {
-			return fmt.Errorf("node %q is emitted %d times", n.Id, c)
-		}
-	}
-	if len(emitted) != len(doc.NodeList.Nodes) {
-		return fmt.Errorf("output has %d elements for %d nodes", len(emitted), len(doc.NodeList.Nodes))
-	}
-	for _, e := range doc.NodeList.Edges {
-		for _, to := range e.To {
-			if rels[e.From+" "+norm(e.Type.String())+" "+to] == 0 {
-				return fmt.Errorf("edge %q -%v-> %q has no relationship element", e.From, e.Type, to)
+			ty := norm(jsonStr(member(eo, "type")))
+			if ty == "" || strings.Contains(ty, "package") || strings.Contains(ty, "file") {
+				artifact[id] = true
 			}
 		}
 	}
-	for k := range rels {
-		parts := strings.SplitN(k, " ", 3)
-		if emitted[parts[0]] == 0 || emitted[parts[2]] == 0 {
-			return fmt.Errorf("relationship %q refers to an element that was not emitted", k)
+	// The element of a node is the one whose spdxId is the node id, or an IRI ending in it (SPDX 3 identifies elements by
+	// IRI; the statement does not fix how the id is spelt in the output, only the read-back clause does and SPDX 3 has no reader).
+	elementOf := map[string]string{}
+	owner := map[string]string{}
+	for _, n := range doc.NodeList.Nodes {
+		var hits []string
+		for id := range emitted {
+			if id == n.Id {
+				hits = []string{id}
+				break
+			}
+			if strings.HasSuffix(id, n.Id) {
+				if rest := id[:len(id)-len(n.Id)]; strings.HasSuffix(rest, "#") || strings.HasSuffix(rest, "/") || strings.HasSuffix(rest, ":") || strings.HasSuffix(rest, "-") {
+					hits = append(hits, id)
+				}
+			}
+		}
+		sort.Strings(hits)
+		var free []string
+		for _, h := range hits {
+			if _, taken := owner[h]; !taken {
+				free = append(free, h)
+			}
+		}
+		if len(hits) == 1 && hits[0] == n.Id {
+			free = hits
+		}
+		if len(free) == 0 {
+			return fmt.Errorf("node %q is emitted 0 times", n.Id)
+		}
+		// several candidates can only come from ids that are suffixes of one another: take the shortest unclaimed one
+		best := free[0]
+		for _, h := range free {
+			if len(h) < len(best) {
+				best = h
+			}
+		}
+		if c := emitted[best]; c != 1 {
+			return fmt.Errorf("node %q is emitted %d times", n.Id, c)
+		}
+		elementOf[n.Id] = best
+		owner[best] = n.Id
+	}
+	// invented nodes: artifact elements that stand for no node (agents, tools, the document element are not nodes)
+	for id := range artifact {
+		if _, ok := owner[id]; !ok {
+			return fmt.Errorf("output has the package or file element %q, which is no node of the document (%d nodes)", id, len(doc.NodeList.Nodes))
+		}
+	}
+	// an edge is expressed by a relationship element between the elements of its ends. The beta SPDX 3 writer has no
+	// reader and the statement fixes no vocabulary: SPDX 3.0 renamed most relationship types and dropped the inverse
+	// ones (expressed by the forward type with the ends swapped), so neither the type's spelling nor the direction
+	// is asserted here; how often the edge's own type name is used is counted.
+	for _, e := range doc.NodeList.Edges {
+		for _, to := range e.To {
+			found, sameName := false, false
+			want := norm(e.Type.String())
+			for _, r := range rels {
+				if (r.from == elementOf[e.From] && r.to == elementOf[to]) || (r.from == elementOf[to] && r.to == elementOf[e.From]) {
+					found = true
+					sameName = sameName || r.typ == want
+				}
+			}
+			if !found {
+				return fmt.Errorf("edge %q -%v-> %q has no relationship element", e.From, e.Type, to)
+			}
+			hx.ClassIf(sameName, "spdx3_relationship_named_like_the_edge_type")
+		}
+	}
+	for _, r := range rels {
+		if emitted[r.from] == 0 || emitted[r.to] == 0 {
+			return fmt.Errorf("relationship %q -%s-> %q refers to an element that was not emitted", r.from, r.typ, r.to)
 		}
 	}
 	for _, r := range jsonArr(member(j, "rootElement")) {
@@ -309,7 +368,7 @@ func checkCDXOutput(doc *sbom.Document, out []byte, f formats.Format) error {
 		ok := false
 		for p := range ps {
 			for _, got := range o.parents[c] {
-				if got == p || (p == root && got == "<top>") {
+				if got == p || (p == root && (got == "<top>" || got == "<metadata>")) {
 					ok = true
 				}
 			}
@@ -328,7 +387,7 @@ func checkCDXOutput(doc *sbom.Document, out []byte, f formats.Format) error {
 			continue
 		}
 		for _, got := range o.parents[n.Id] {
-			if got != "<top>" && got != "<metadata>" && !containedBy[n.Id][got] {
+			if got != "<top>" && got != "<metadata>" && got != root && !containedBy[n.Id][got] {
 				return fmt.Errorf("node %q is contained by nothing but was emitted under %q", n.Id, got)
 			}
 		}
@@ -514,7 +573,6 @@ func checkTranslation(doc *sbom.Document, f formats.Format) (bool, error) {
 // ---- (a) generated well-formed documents ------------------------------------------------------------------
 
 func c03Node(t *rapid.T, id string) *sbom.Node {
-	tx := hx.TextPlain()
 	n := &sbom.Node{Id: id, Name: hx.TextName().Draw(t, "name")}
 	if rapid.Bool().Draw(t, "ver?") {
 		n.Version = hx.TextPlainNE().Draw(t, "ver")
@@ -532,15 +590,15 @@ func c03Node(t *rapid.T, id string) *sbom.Node {
 		n.Hashes[int32(rapid.IntRange(1, 17).Draw(t, "algo"))] = hashValue(t, "hv", hx.TextPlainNE()) // mostly valid hash contents
 	}
 	if rapid.Bool().Draw(t, "purl?") {
-		n.Identifiers = setID(n.Identifiers, 1, "pkg:npm/"+tx.Draw(t, "purl"))
+		n.Identifiers = setID(n.Identifiers, 1, genPurl(t, "purl"))
 	}
 	switch rapid.IntRange(0, 3).Draw(t, "cpe") {
 	case 1:
-		n.Identifiers = setID(n.Identifiers, 3, "cpe:2.3:"+tx.Draw(t, "c23"))
+		n.Identifiers = setID(n.Identifiers, 3, genCPE23(t, "c23"))
 	case 2:
-		n.Identifiers = setID(n.Identifiers, 2, "cpe:/"+tx.Draw(t, "c22"))
+		n.Identifiers = setID(n.Identifiers, 2, genCPE22(t, "c22"))
 	case 3:
-		n.Identifiers = setID(setID(n.Identifiers, 3, "cpe:2.3:"+tx.Draw(t, "c23")), 2, "cpe:/"+tx.Draw(t, "c22"))
+		n.Identifiers = setID(setID(n.Identifiers, 3, genCPE23(t, "c23")), 2, genCPE22(t, "c22"))
 	}
 	return n
 }
